@@ -225,7 +225,11 @@ fn exec<S: Crystal>(initial: S, sc: &Scenario) -> Result<RunOut, String> {
     }
     if let Some((k, msg)) = &ev.panic {
         // a stage that panics on a valid input state did not "return a state with a finite, defined score"
-        viol.push(Violation::new("stage-panicked", *k as u64, format!("chain op {}: optimise_state panicked: {}", k, msg)));
+        if msg.starts_with(super::NONFINITE_PARAM) {
+            viol.push(Violation::new("parameter-not-finite", *k as u64, format!("chain op {}: a state reached during the stage holds a parameter that is not a finite number ({})", k, msg)));
+        } else {
+            viol.push(Violation::new("stage-panicked", *k as u64, format!("chain op {}: optimise_state panicked: {}", k, msg)));
+        }
     }
     for v in viol {
         out.violate(v);
